@@ -16,6 +16,8 @@ from ..facts import AnchorMissing
 from .common import (RT, where, short, fn_key, callers_of, who_may_call, control_deps,
                      transitive_control_deps, control_dependence_no_errors)
 
+CRATES = ["parol_runtime.lib"]
+
 META = {
     "explanation": "Decides three structural clauses of C17 on parol_runtime's MIR: (1) the raw skip predicate "
                    "Token::is_skip_token is consulted only where the state-specific skip flag is irrelevant, "
